@@ -85,11 +85,16 @@ class C05(Base):
             return ListDriver([["sweep", fn, nm, sm]])
         if rng.random() < self.LARGE[tier]:
             N = rng.randint(80, 400)
-            s = rng.randint(2, 30)
-            r = rng.randint(0, s)
-            cfg = {"cls": "Multistage", "N": N,
-                   "p": {"r": r, "d": s - r,
-                         "traj": rng.choice(("maximum", "revolve"))}}
+            if rng.random() < 0.5:
+                s = rng.randint(2, 30)
+                r = rng.randint(0, s)
+                cfg = {"cls": "Multistage", "N": N,
+                       "p": {"r": r, "d": s - r,
+                             "traj": rng.choice(("maximum", "revolve"))}}
+            else:
+                cfg = {"cls": "Revolve", "N": N,
+                       "p": dict(draw_costs(rng),
+                                 s=1 if N > 300 else rng.choice((1, 2)))}
             return Plan([(cfg, 1, "every")])
         others, calls = _cotenants(rng, nmax)
         if rng.random() < 0.7:
